@@ -16,6 +16,9 @@ try:
     demo_local = W + "/_demo.py"
     demo_clean = run(["/venv/bin/python", demo_local]).returncode
     ap = subprocess.run(["git", "-C", W, "apply", diff], capture_output=True, text=True)
+    if ap.returncode:      # the tree has moved on since the patch was written: three-way merge against its base blobs
+        ap = subprocess.run(["git", "-C", W, "apply", "--3way", diff], capture_output=True, text=True)
+        subprocess.run(["git", "-C", W, "reset", "-q"], capture_output=True)
     if ap.returncode:
         print("PATCH FAILED", ap.stderr); sys.exit(2)
     demo_mut = run(["/venv/bin/python", demo_local]).returncode
